@@ -682,6 +682,18 @@ def hermes_regular_part(ctx, rule):
     ctx.check(not bad, rule, fn, "hermes:raw-untouched", "decode_hermes hands the raw map to decode_regular as parsed (it only takes x_facebook_sources out)", detail="also modified: %s" % bad)
     calls = [q.shape(h.expr_of_call(t)) for bi, t in q.calls_to(h, "decoder::decode_regular")]
     ctx.check(calls == ["decoder::decode_regular(arg1)"], rule, fn, "hermes:regular-decoder", "the regular part is decoded by decode_regular from that raw map", detail=str(calls))
+    # decode_hermes fails only for a missing payload or a failing regular decode: a table that is shorter or longer than
+    # `sources`, or that holds unparsable entries, is not a reason to refuse the document
+    from rules.common import error_exits, has_fact, opt_fact
+    errs = error_exits(h)
+    allowed = {"propagate:decoder::decode_regular", "propagate:Option::ok_or", "propagate:Option::ok_or_else", "construct:IncompatibleSourceMap"}
+    ctx.check(errs <= allowed and "propagate:decoder::decode_regular" in errs, rule, fn, "hermes:rejections", "decode_hermes fails only for a missing x_facebook_sources payload or a failing regular decode",
+              detail=str(sorted(errs - allowed)))
+    TAKE = ("Option::take(arg1.x_facebook_sources)", "mem::take(arg1.x_facebook_sources)", "arg1.x_facebook_sources")
+    for sh, site, _e in q.def_shapes(h, 0, {}):
+        if sh.startswith("Result::Err{") and "IncompatibleSourceMap" in sh:
+            ok = any(has_fact(h, site[0], {}, *opt_fact("none", t)) for t in TAKE)
+            ctx.check(ok, rule, fn, "hermes:incompatible-only-without-payload", "IncompatibleSourceMap is reported only when the x_facebook_sources key is absent", ctx.site(h, *site), detail=sh[:160])
 
 
 def key_names(ctx, rule):
